@@ -58,3 +58,4 @@ while True:
     yield_()
 """, pool=[1.0, 2.0, 3.0, 5.0, 8.0, 13.0])
 raw("D2-invert", "C09", {"kind": "program", "src": {"": HDR + "x = d0.Setting\ndb.Setting = ~x\n"}, "opts": {}})
+raw("D18-bdns", "C16", {"family": "intrinsic", "name": "bdns"})
